@@ -583,7 +583,8 @@ example : discreteUniformSample 8 false 100 (⟨3, 10⟩ : Gen.DiscreteUniform R
     function as `draw` (`ln_pflips(…, 1, true, rng)[0]`) over the variates; a panic of one element is a panic of the call -/
 theorem Categorical_sample_eq_draws {α : Type} [RealLike α] (d : Gen.Categorical α) (us : List α) :
     categoricalSample d us = collect (us.map (categoricalDraw d)) := by
-  have e : categoricalDraw d = fun u => Gen.catflip (lnCws d.ln_weights true) u := by
+  have e : categoricalDraw d = fun u => Gen.catflip (lnCws d.ln_weights true)
+      (u * (lnCws d.ln_weights true).getLast?.getD (1.0 : α)) := by
     funext u; simp [categoricalDraw, lnPflips]
   simp [categoricalSample, lnPflipsAll, lnPflips, e]
 
@@ -594,7 +595,8 @@ example : categoricalSample (⟨[⟨0⟩]⟩ : Gen.Categorical R) [⟨0.5⟩] =
 /-- TOTALITY for every generator word (`Open01`), log-weights in `ℝ ∪ {-inf}` with at least one finite entry and
     `Σ exp = 1` over exact arithmetic (`C13.lnPflips_every_word`): the draw is an index inside the weight vector
     (`Categorical::supports`) and never one of weight zero.  (In binary64 the rounded sum may fall below the largest
-    variate: the panic found by C13B, here `draw.Categorical` answers `PANIC` for such weight vectors and `u64::MAX`.) -/
+    variate: the panic found by C13B; repaired by 2d99e05 — `ln_pflips` now scales the variate by the rounded total,
+    `C13.scaled_variate_rounds_below`.) -/
 theorem Categorical_draw_supported (lnw : List X) (hw : ∀ w ∈ lnw, IsFinOrNinf w) (hfin : fins lnw ≠ [])
     (hl : C13.FuelOK lnw.length) (hn : ((fins lnw).map Real.exp).sum = 1) (w : Nat) (hw64 : w < 2 ^ 64) :
     ∃ i, categoricalDraw (⟨lnw⟩ : Gen.Categorical X) (open01 w) = some i ∧ i < lnw.length ∧ idxR lnw i ≠ ninf := by
